@@ -66,8 +66,9 @@ def monomial_integral(S, a, b):
 
 
 class ESRun:
-    def __init__(self, D, lmin, lmax, version=0, nrbe=1, auto=False, single=False, boundary=True, a=None, b=None, margin=None, peak=None, int_domain=False, extra=None):
+    def __init__(self, D, lmin, lmax, version=0, nrbe=1, auto=False, single=False, boundary=True, a=None, b=None, margin=None, peak=None, int_domain=False, extra=None, continue_via='resume'):
         SA, TG, Integration, EC, _ = _lib()
+        self.continue_via, self.ncont = continue_via, 0
         self.D, self.lmin, self.lmax0 = D, lmin, lmax
         self.a = np.array([0.0] * D if a is None else a, dtype=float)
         self.b = np.array([1.0] * D if b is None else b, dtype=float)
@@ -99,7 +100,14 @@ class ESRun:
                 self.started = True
                 self.ret = self.combi.performSpatiallyAdaptiv(self.lmin, self.lmax0, self.ec, tol=-1, max_evaluations=0, print_output=False)
             else:
-                self.ret = self.combi.continue_adaptive_refinement(tol=-1, max_evaluations=0)
+                self.ncont += 1
+                via = self.continue_via if self.continue_via != 'mixed' else ('container' if self.ncont % 2 else 'resume')
+                if via == 'container':
+                    # the documented third way to continue: a new performSpatiallyAdaptiv call that is handed the object's own refinement
+                    self.ret = self.combi.performSpatiallyAdaptiv(self.lmin, self.lmax0, self.ec, tol=-1, max_evaluations=0, print_output=False,
+                                                                 refinement_container=self.combi.refinement)
+                else:
+                    self.ret = self.combi.continue_adaptive_refinement(tol=-1, max_evaluations=0)
         return self.ret
 
     def leaves(self):
@@ -287,8 +295,9 @@ def edge_replay(rep, g, c, traces, maxedges, rng):
 
 
 def random_history(rng, c, steps):
+    via = c.get('continue_via') or rng.choice(['resume', 'resume', 'resume', 'container', 'mixed'])
     run = ESRun(c['D'], c['lmin'], c['lmax'], version=c['version'], nrbe=c['nrbe'], auto=c.get('auto', False), single=c.get('single', False),
-                boundary=c.get('boundary', True), a=c.get('a'), b=c.get('b'), margin=c.get('margin'), peak=c.get('peak'), int_domain=c.get('int_domain', False), extra=c.get('extra'))
+                boundary=c.get('boundary', True), a=c.get('a'), b=c.get('b'), margin=c.get('margin'), peak=c.get('peak'), int_domain=c.get('int_domain', False), extra=c.get('extra'), continue_via=via)
     run.evaluate()
     evs = [observe(run)]
     script = []
@@ -319,8 +328,8 @@ def random_history(rng, c, steps):
             break
         evs.append(do_step(run, B))
         script.append(B)
-    return {'cfg': trace_cfg(run), 'events': [strip(e) for e in evs], 'origin': 'random ' + c['name'],
-            '_script': {'cfg': dict(run.cfg), 'steps': script}, '_detail': [e.get('_detail') for e in evs]}
+    return {'cfg': trace_cfg(run), 'events': [strip(e) for e in evs], 'origin': 'random ' + c['name'] + ('' if via == 'resume' else ' (continued via %s)' % via),
+            '_script': {'cfg': dict(run.cfg, continue_via=via), 'steps': script}, '_detail': [e.get('_detail') for e in evs]}
 
 
 def validate(traces):
